@@ -86,4 +86,30 @@ theorem fake_table_ok : fakeTable.allTrue = true := by decide
 noise of all-zero slices from a stream seeded with it -/
 theorem shepp_table_ok : sheppTable.allTrue = true := by decide
 
+/-! ## phase 3 -/
+
+/-- `n_samples = self.blobs_n_samples if self.blobs_n_samples else np.prod(list(spatial_shape)) // self.ndim` -/
+theorem blobs_n_samples_eq (given total ndim : Int) : blobs_n_samples given total ndim = blobsNSamples given total ndim := by
+  simp only [blobs_n_samples, blobsNSamples, bne_iff_ne]
+
+/-- `num_slices = self.spatial_shape[0] if len(self.spatial_shape) == 3 else 1` -/
+theorem fake_num_slices_eq (ndim shape0 : Int) : fake_num_slices ndim shape0 = fakeNumSlices ndim shape0 := by
+  simp only [fake_num_slices, fakeNumSlices, beq_iff_eq]
+
+/-- `FakeMRIBlobsDataset`: names / ranges / `(filename, slice_no, seed)` list / item plumbing are `fakeNames` / `fakeBuild` /
+`fakeIndex` -/
+theorem fake_index_table_ok : fakeIndexTable.all (·.2) = true := by decide
+/-- `SheppLoganDataset.__getitem__` is `sheppIndex`; the reported `slice_no` is the index as given iff the model says so -/
+theorem shepp_index_table_ok : sheppIndexTable.all (·.2) = true := by decide
+theorem shepp_slice_no_eq : sheppSliceNoIsIndexAsGiven = sheppReportsIndexAsGiven := by decide
+/-- the `make_blobs` call is `blobArgs` (centres = coils, features = ndim, default shuffle); `simulate_sensitivity_maps`
+draws one `uniform(0, 2π, 1)` and nothing for a single coil -/
+theorem blob_call_table_ok : blobCallTable.all (·.2) = true := by decide
+/-- loading an item writes no attribute of the dataset object (the item functions of the model return no new dataset) -/
+theorem instance_state_table_ok : instanceStateTable.all (·.2) = true := by decide
+/-- no dataset is constructed outside the data modules except through `build_dataset(_from_input)` / direct's
+`ConcatDataset` -/
+theorem callers_table_ok : callersTable.all (·.2) = true := by decide
+theorem build_table_ok : buildTable.all (·.2) = true := by decide
+
 end DirectVerif.Bridge.C12
